@@ -187,6 +187,11 @@ func C19(p *core.Program, r *core.Report) {
 				continue
 			}
 			okGate = true
+			// the two values compared are one snapshot: read under the same acquisition of dataMutex
+			ls := core.ComputeLockSets(sfb)
+			eo, ho := ls.Held(ownL, "pkg/routing.Prophet.dataMutex", false)
+			ep, hp := ls.Held(peerL, "pkg/routing.Prophet.dataMutex", false)
+			r.Check(ho && hp && eo == ep, "forward-gate/"+fname(sfb)+"/consistent-snapshot", "the node's own predictability and the peer's advertised one, which the selection compares, are read under one acquisition of dataMutex (a summary vector processed between two separate reads raises the own value: the peer is then selected although its value was never greater)", p.Pos(ownL.Pos()), "", "own value read at "+p.Pos(ownL.Pos())+" and peer value read at "+p.Pos(peerL.Pos())+" are not in the same lock region: "+ls.HeldNames(ownL)+" / "+ls.HeldNames(peerL))
 		}
 		r.Check(okGate, "forward-gate/"+fname(sfb)+"/strictly-better-peer", "a peer is selected only if its advertised predictability for the destination is strictly greater than the node's own", p.Pos(c.Pos()), "", "gate missing or weakened; "+detail+" "+condStrings(conds))
 	})
@@ -200,7 +205,7 @@ func C19(p *core.Program, r *core.Report) {
 		if c, ok := rv.V.(*ssa.Const); ok && c.Value == nil {
 			conds := core.DominatingConds(rv.At.Block())
 			for _, eb := range core.CallsTo(sfb, bp7+".Bundle.ExtensionBlock") {
-				if v, ok := core.ConstInt(core.CallArgs(eb)[0]); ok && v == prophetBlock && errNilGuard(conds, eb.(ssa.Value)) {
+				if v, ok := core.ConstInt(core.Arg(eb, 0)); ok && v == prophetBlock && errNilGuard(conds, eb.(ssa.Value)) {
 					okMeta = true
 				}
 			}
